@@ -173,6 +173,8 @@ def concrete_before_templated(ctx, rule, fn, getter, crate='pavexc'):
     b = ctx.need(rule, fn.split('::')[-2] + '::' + fn.split('::')[-1], ctx.fb.body(crate, fn))
     if b is None:
         return
+    from ..inline import inlined
+    b = inlined(ctx.fb, b, keep={getter})      # the templated search may live in a private helper
     gets = [bb for bb, t in b.calls() if callee(t) == getter]
     templ = [bb for bb, t in b.calls() if (callee(t) or '').split('::')[-1] in ('find_map', 'find', 'filter_map', 'position', 'any')
              or (callee(t) or '').endswith('is_a_template_for')]
